@@ -9,13 +9,16 @@ EXTENDS Arena
 
 T(k, c) == [k |-> k, c |-> c]
 Lf(k) == T(k, <<>>)
+\* a Reference node pointing at note t; a leaf whose text links to the notes rs
+Rf(t) == [k |-> "R", c |-> <<>>, tgt |-> t]
+Ll(rs) == [k |-> "L", c |-> <<>>, refs |-> rs]
 
-T1 == T("D", <<T("S", <<Lf("L")>>)>>)
-T2 == T("D", <<T("S", <<Lf("L"), T("S", <<Lf("L")>>), T("S", <<Lf("R")>>)>>)>>)
-T3 == T("D", <<Lf("L"), T("BL", <<T("S", <<>>), T("S", <<Lf("L")>>)>>), Lf("L")>>)
-T4 == T("D", <<T("S", <<Lf("T"), Lf("L"), Lf("R")>>)>>)
-T5 == T("D", <<T("Q", <<Lf("L"), Lf("L")>>), Lf("R")>>)
-T6 == T("D", <<T("S", <<T("OL", <<T("S", <<T("BL", <<T("S", <<>>)>>)>>)>>), Lf("Raw"), Lf("HR")>>)>>)
+T1 == T("D", <<T("S", <<Ll(<<2>>)>>)>>)
+T2 == T("D", <<T("S", <<Lf("L"), T("S", <<Ll(<<1, 9>>)>>), T("S", <<Rf(2)>>)>>)>>)
+T3 == T("D", <<Lf("L"), T("BL", <<T("S", <<>>), T("S", <<Ll(<<1>>)>>)>>), Rf(1)>>)
+T4 == T("D", <<T("S", <<[k |-> "T", c |-> <<>>, refs |-> <<2>>], Lf("L"), Rf(1)>>)>>)
+T5 == T("D", <<T("Q", <<Ll(<<2>>), Lf("L")>>), Rf(9)>>)
+T6 == T("D", <<T("S", <<T("OL", <<T("S", <<T("BL", <<T("S", <<>>)>>)>>)>>), Lf("Raw"), Lf("HR"), Rf(2), Ll(<<1>>)>>)>>)
 T7 == T("D", <<>>)
 
 CatSmall == {T1, T3, T4, T7}
